@@ -9,21 +9,13 @@
 package main
 
 import (
-	"bufio"
-	"bytes"
-	"encoding/json"
 	"fmt"
-	"os"
-	"os/exec"
-	"path/filepath"
-	"sort"
 	"strings"
-	"time"
 
 	"verifharness/lib"
+	"verifharness/schgen"
 
 	"github.com/ipld/go-ipld-prime/schema"
-	gengo "github.com/ipld/go-ipld-prime/schema/gen/go"
 )
 
 type caseRec struct {
@@ -34,185 +26,6 @@ type caseRec struct {
 	v     *lib.Val
 	bind  string
 	gen   string
-}
-
-type batchStatus struct {
-	Dir       string  `json:"dir"`
-	Schemas   int     `json:"schemas"`
-	Cases     int     `json:"cases"`
-	Generated bool    `json:"generated"`
-	Compiled  bool    `json:"compiled"`
-	Lines     int     `json:"lines"`
-	GenSec    float64 `json:"gen_s"`
-	BuildSec  float64 `json:"build_s"`
-	Log       string  `json:"log"`
-	NodeRuns  int     `json:"node_runs"`
-}
-
-type nodeDiff struct {
-	Case   []string `json:"case"`
-	Direct string   `json:"direct"`
-	Node   string   `json:"node"`
-}
-
-var nodeDiffs []nodeDiff
-
-const driverSrc = `package main
-
-import (
-	"bufio"
-	"fmt"
-	"os"
-	"strings"
-
-	"verifharness/lib"
-	"zzgen/gen"
-
-	"github.com/ipld/go-ipld-prime/datamodel"
-)
-
-func main() {
-	sc := bufio.NewScanner(os.Stdin)
-	sc.Buffer(make([]byte, 1<<20), 1<<28)
-	w := bufio.NewWriterSize(os.Stdout, 1<<20)
-	defer w.Flush()
-	for sc.Scan() {
-		f := strings.Split(sc.Text(), "\t") // id, type name, level, route, tree
-		if len(f) < 5 {
-			continue
-		}
-		v, err := lib.ParseVal(f[4])
-		if err != nil {
-			panic(err)
-		}
-		np := gen.ZzProto(f[1], f[2] == "r")
-		obs := "noproto"
-		if np != nil {
-			obs, _ = lib.SchBuildWith(func() datamodel.NodeBuilder { return np.NewBuilder() }, f[3], v)
-		}
-		fmt.Fprintf(w, "%s\t%s\n", f[0], obs)
-	}
-}
-`
-
-func repoDir() string {
-	if r := os.Getenv("VERIF_REPO"); r != "" {
-		return r
-	}
-	return "/repo"
-}
-
-// generate + build one batch; returns the path of the built driver ("" on failure)
-func buildBatch(dir string, schemas []*lib.SchTy, rng *lib.Rng, st *batchStatus) string {
-	os.RemoveAll(dir)
-	if err := os.MkdirAll(filepath.Join(dir, "gen"), 0o755); err != nil {
-		st.Log = err.Error()
-		return ""
-	}
-	t0 := time.Now()
-	var names []string
-	err := lib.Safely(func() error {
-		tsp, err := lib.SchTypeSystem(schemas, false)
-		if err != nil {
-			return err
-		}
-		ts := *tsp
-		adj := &gengo.AdjunctCfg{CfgUnionMemlayout: map[schema.TypeName]string{}}
-		types := ts.GetTypes()
-		for name := range types {
-			names = append(names, name)
-		}
-		sort.Strings(names) // map order must not leak into the generated code or the PRNG stream
-		for _, name := range names {
-			if types[name].TypeKind() == schema.TypeKind_Union && rng.Chance(40) {
-				adj.CfgUnionMemlayout[name] = "interface"
-			}
-		}
-		gengo.Generate(filepath.Join(dir, "gen"), "gen", ts, adj)
-		return nil
-	})
-	st.GenSec = time.Since(t0).Seconds()
-	if err != nil {
-		st.Log = "generate: " + err.Error()
-		return ""
-	}
-	st.Generated = true
-	// prototype getter + driver + module files
-	var g strings.Builder
-	g.WriteString("package gen\n\nimport \"github.com/ipld/go-ipld-prime/datamodel\"\n\nfunc ZzProto(name string, repr bool) datamodel.NodePrototype {\n\tswitch name {\n")
-	for _, n := range names {
-		fmt.Fprintf(&g, "\tcase %q:\n\t\tif repr {\n\t\t\treturn _%s__ReprPrototype{}\n\t\t}\n\t\treturn _%s__Prototype{}\n", n, n, n)
-	}
-	g.WriteString("\t}\n\treturn nil\n}\n")
-	os.WriteFile(filepath.Join(dir, "gen", "zz_getter.go"), []byte(g.String()), 0o644)
-	os.WriteFile(filepath.Join(dir, "zz_main.go"), []byte(driverSrc), 0o644)
-	harnessDir, _ := filepath.Abs("harness")
-	repo, _ := filepath.Abs(repoDir())
-	gomod := fmt.Sprintf("module zzgen\n\ngo 1.25.7\n\nrequire (\n\tgithub.com/ipld/go-ipld-prime v0.0.0\n\tverifharness v0.0.0\n)\n\nreplace github.com/ipld/go-ipld-prime => %s\n\nreplace verifharness => %s\n", repo, harnessDir)
-	os.WriteFile(filepath.Join(dir, "go.mod"), []byte(gomod), 0o644)
-	if sum, err := os.ReadFile(filepath.Join(repo, "go.sum")); err == nil {
-		os.WriteFile(filepath.Join(dir, "go.sum"), sum, 0o644)
-	}
-	files, _ := filepath.Glob(filepath.Join(dir, "gen", "ipldsch_*.go"))
-	for _, f := range files {
-		b, _ := os.ReadFile(f)
-		st.Lines += bytes.Count(b, []byte("\n"))
-	}
-	t1 := time.Now()
-	cmd := exec.Command("go", "build", "-o", "zzdrv", ".")
-	cmd.Dir = dir
-	env := []string{}
-	for _, e := range os.Environ() {
-		if strings.HasPrefix(e, "GOSUMDB=") || strings.HasPrefix(e, "GOTOOLCHAIN=") || strings.HasPrefix(e, "GOFLAGS=") || strings.HasPrefix(e, "GOPROXY=") {
-			continue
-		}
-		env = append(env, e)
-	}
-	cmd.Env = append(env, "GOFLAGS=-mod=mod", "GOPROXY=off")
-	outp, err := cmd.CombinedOutput()
-	st.BuildSec = time.Since(t1).Seconds()
-	if err != nil {
-		lg := string(outp)
-		if len(lg) > 3000 {
-			lg = lg[:3000]
-		}
-		st.Log = "go build: " + err.Error() + "\n" + lg
-		return ""
-	}
-	st.Compiled = true
-	return filepath.Join(dir, "zzdrv")
-}
-
-func runGen(drv string, schemas []*lib.SchTy, cases []*caseRec) error {
-	var in bytes.Buffer
-	for _, c := range cases {
-		fmt.Fprintf(&in, "%s\t%s\t%c\t%s\t%s\n", c.id, schemas[c.si].Name, c.level, c.route, c.v.Text())
-	}
-	cmd := exec.Command(drv)
-	cmd.Stdin = &in
-	var out, errb bytes.Buffer
-	cmd.Stdout = &out
-	cmd.Stderr = &errb
-	if err := cmd.Run(); err != nil {
-		return fmt.Errorf("%v: %s", err, errb.String())
-	}
-	res := map[string]string{}
-	sc := bufio.NewScanner(&out)
-	sc.Buffer(make([]byte, 1<<20), 1<<28)
-	for sc.Scan() {
-		f := strings.SplitN(sc.Text(), "\t", 2)
-		if len(f) == 2 {
-			res[f[0]] = f[1]
-		}
-	}
-	for _, c := range cases {
-		if o, ok := res[c.id]; ok {
-			c.gen = o
-		} else {
-			c.gen = "noresult"
-		}
-	}
-	return nil
 }
 
 func runBind(schemas []*lib.SchTy, cases []*caseRec) {
@@ -325,65 +138,19 @@ func main() {
 	}
 	runBind(schemas, cases)
 
-	// batches of schemas -> one generated package each
-	const perBatch = 60
-	var status []batchStatus
-	root := filepath.Join("build", "gen", run)
-	os.RemoveAll(root)
-	for b := 0; b*perBatch < len(schemas); b++ {
-		lo, hi := b*perBatch, (b+1)*perBatch
-		if hi > len(schemas) {
-			hi = len(schemas)
-		}
-		var bc []*caseRec
-		for _, c := range cases {
-			if c.si >= lo && c.si < hi {
-				bc = append(bc, c)
-			}
-		}
-		st := batchStatus{Dir: filepath.Join(root, fmt.Sprintf("b%d", b)), Schemas: hi - lo, Cases: len(bc)}
-		drv := buildBatch(st.Dir, schemas[lo:hi], rng, &st)
-		if drv == "" {
-			for _, c := range bc {
-				c.gen = "nobuild"
-			}
-		} else if err := runGen(drv, schemas, bc); err != nil {
-			st.Log = "run: " + err.Error()
-			for _, c := range bc {
-				c.gen = "norun"
-			}
-		} else {
-			// AssignNode of a foreign (basicnode) tree must behave like the plain call sequence
-			var nc []*caseRec
-			for _, c := range bc {
-				if c.route == "direct" && !c.v.HasDupKeys() {
-					nc = append(nc, &caseRec{id: c.id, si: c.si, level: c.level, route: "node", v: c.v, bind: c.gen})
-				}
-			}
-			if err := runGen(drv, schemas, nc); err == nil {
-				for _, c := range nc {
-					st.NodeRuns++
-					if c.gen != c.bind {
-						nodeDiffs = append(nodeDiffs, nodeDiff{Case: []string{c.id, "gennode", schemas[c.si].Text(), string(c.level), "node", c.v.Text(), c.bind + "#" + c.gen}, Direct: c.bind, Node: c.gen})
-					}
-				}
-			}
-		}
-		status = append(status, st)
+	// one generated package per batch of schemas (harness/schgen)
+	var gc []*schgen.Case
+	for _, c := range cases {
+		gc = append(gc, &schgen.Case{ID: c.id, SI: c.si, Op: "build", Level: c.level, Route: c.route, V: c.v})
 	}
-	if len(nodeDiffs) > 400 {
-		nodeDiffs = nodeDiffs[:400]
+	schgen.Run("c13-"+run, schemas, gc, rng, true)
+	for i, c := range cases {
+		c.gen = gc[i].Obs
 	}
-	nd, _ := json.Marshal(nodeDiffs)
-	os.MkdirAll(filepath.Join("build", "gen"), 0o755)
-	os.WriteFile(filepath.Join("build", "gen", "nodediff-"+run+".json"), nd, 0o644)
-	js, _ := json.MarshalIndent(status, "", " ")
-	os.MkdirAll(filepath.Join("build", "gen"), 0o755)
-	os.WriteFile(filepath.Join("build", "gen", "status-"+run+".json"), js, 0o644)
 
 	for _, c := range cases {
 		obs := c.bind + "#" + c.gen
-		if c.gen == "nobuild" || c.gen == "norun" || c.gen == "noresult" || c.gen == "noproto" {
+		if c.gen == "nobuild" {
 			obs = "nobuild"
 		}
 		out.Case(c.id, "both", schemas[c.si].Text(), string(c.level), c.route, c.v.Text(), obs)
